@@ -96,6 +96,7 @@ func runC17(c *report.Ctx) {
 	ruleTipFromTransaction(c)
 	ruleOneReadTransaction(c)
 	ruleHeightFromSameReadTransaction(c)
+	ruleSingleIteratorScan(c)
 }
 
 // ruleCommonLock: the lockset race rule, optionally restricted to the locations a property's clause is about.
